@@ -8,15 +8,18 @@
    new volumes, apply_va_T = the explicit transpose, apply_va_log = log mode.
    A weight list T is a list of (weight, input cell, output cell).
 
-   Status.  Linearity, matrix form, adjoint identity, reciprocity in log mode
-   and the tensor (3-D from 1-D) structure are proved for EVERY weight list.
-   Range preservation and conservation are proved for every weight list that
-   TILES the cells (hypotheses wsum_out = vol, wsum_in = vol_in); that
-   va_weights tiles is proved only on a bounded family (all pairs of node
-   lists within 0..6, va_1d_clauses_bounded_partial) and otherwise checked by
-   correspondence -- these theorems carry the suffix _partial. *)
+   Status.  Everything is proved at full strength, for strictly increasing node
+   lists of ANY length over the reals: the stateful loop equals its stateless
+   description, weights > 0, the index is the cell containing the interval
+   centre (nearest cell outside the source grid), the merged intervals tile
+   every output cell (and every input cell when both grids cover the same
+   region), equal grids give the identity weights; in 3-D: range preservation
+   (convexity), conservation (linear and log mode), linearity, matrix form,
+   adjoint identity, rho/sigma reciprocity.  The *_given_tiling theorems are
+   the same facts for an arbitrary weight list under explicit hypotheses; the
+   bounded vm_compute theorem is kept as an independent cross-check. *)
 From Coq Require Import Reals ZArith Bool List Arith QArith Sorted.
-From V Require Import Base.FieldSig Base.ExecQ Model.VolAvg Proofs.VolAvg.
+From V Require Import Base.FieldSig Base.ExecQ Model.VolAvg Proofs.VolAvg Proofs.VolAvgInd.
 Import ListNotations.
 Local Open Scope R_scope.
 
@@ -55,20 +58,18 @@ Section C15.
   Proof. exact (adjoint_identity ieqb jeqb ieqb_spec jeqb_spec T vol Is Os
                                  Is_nodup Os_nodup T_in T_out u v). Qed.
 
-  (* range: FULL STATEMENT  forall grids, min v <= interp_va ... v o <= max v.
-     Proved here for every weight list with non-negative weights that tile
-     output cell o; missing: va_weights/trip3 tile every output cell for ALL
-     node lists (bounded version below, lifted to 3-D by tile_lifts_to_3d_out). *)
-  Theorem va_convex_partial v o m M :
+  (* range, for every weight list with non-negative weights that tile output
+     cell o (the grid version is va_convex below) *)
+  Theorem va_convex_given_tiling v o m M :
     (forall t, In t T -> 0 <= fst (fst t)) ->
     wsum_out jeqb T o = vol o -> 0 < vol o ->
     (forall t, In t T -> m <= v (snd (fst t)) <= M) ->
     m <= apply_va jeqb T vol (fun _ => 0) v o <= M.
   Proof. exact (convex_given_tile jeqb T vol v o m M). Qed.
 
-  (* conservation: FULL STATEMENT  same region => sum vol' * out = sum vol * in.
-     Proved for every weight list that tiles the input cells; missing as above. *)
-  Theorem va_conserves_partial (voli : I -> R) v :
+  (* conservation, for every weight list that tiles the input cells (the grid
+     version is va_conserves below) *)
+  Theorem va_conserves_given_tiling (voli : I -> R) v :
     (forall o, In o Os -> vol o <> 0) ->
     (forall i, In i Is -> wsum_in ieqb T i = voli i) ->
     sumL (fun o => vol o * apply_va jeqb T vol (fun _ => 0) v o) Os
@@ -77,7 +78,7 @@ Section C15.
                                      Is_nodup Os_nodup T_in T_out voli v). Qed.
 
   (* log mode (interpolate(..., log=True)): the integral of log10 is conserved *)
-  Theorem va_log_conserves_partial (voli : I -> R) v :
+  Theorem va_log_conserves_given_tiling (voli : I -> R) v :
     (forall o, In o Os -> vol o <> 0) ->
     (forall i, In i Is -> wsum_in ieqb T i = voli i) ->
     sumL (fun o => vol o * log10R (apply_va_log jeqb T vol v o)) Os
@@ -95,9 +96,9 @@ End C15.
 Print Assumptions va_is_linear.
 Print Assumptions va_is_linear_with_matrix.
 Print Assumptions va_adjoint_identity.
-Print Assumptions va_convex_partial.
-Print Assumptions va_conserves_partial.
-Print Assumptions va_log_conserves_partial.
+Print Assumptions va_convex_given_tiling.
+Print Assumptions va_conserves_given_tiling.
+Print Assumptions va_log_conserves_given_tiling.
 Print Assumptions log_mode_rho_sigma.
 
 (* tensor structure: the total weight written to / read from a 3-D cell is the
@@ -134,20 +135,14 @@ Theorem va_weights_positive (x_i x_o : list R) t :
 Proof. exact (va_weights_pos x_i x_o t). Qed.
 Print Assumptions va_weights_positive.
 
-(* the 1-D clauses about va_weights itself.  FULL STATEMENT: for all strictly
-   increasing node lists x_i, x_o (any length): weights > 0, indices in range,
-   the stateful loop equals its stateless description, the weights of output
-   cell j sum to its width (va_weights_tile), same region => the weights of
-   input cell j sum to its width, cells outside the source grid read the
-   nearest input cell (va_nearest_outside), equal grids => identity
-   (va_identity).  PROVED (vm_compute) for the bounded family of all 120 x 120
-   pairs of node lists that are sub-sequences (>= 2 nodes) of 0,1,...,6; this
-   covers every interleaving pattern of up to 7 distinct merged nodes.  The
-   unbounded induction is not done. *)
-Theorem va_1d_clauses_bounded_partial :
+(* independent cross-check of the 1-D clauses (positivity, index bounds,
+   stateful = stateless, tiling of output and input cells, nearest cell,
+   identity) by vm_compute over all 120 x 120 pairs of node lists that are
+   sub-sequences (>= 2 nodes) of 0,1,...,6 *)
+Theorem va_1d_clauses_bounded_crosscheck :
   forallb (fun x_i => forallb (fun x_o => check_pair x_i x_o) grids7) grids7 = true.
 Proof. exact check_pair_all. Qed.
-Print Assumptions va_1d_clauses_bounded_partial.
+Print Assumptions va_1d_clauses_bounded_crosscheck.
 
 Example va_weights_run :
   va_weights Qle_bool [0; 1; 5#2; 4]%Q [-1#1; 1#2; 5#2; 3; 6]%Q
@@ -155,3 +150,100 @@ Example va_weights_run :
   /\ length grids7 = 120%nat.
 Proof. exact va_weights_example. Qed.
 Print Assumptions va_weights_run.
+
+(* ======== unbounded statements about va_weights and interp_va (induction) ===== *)
+Notation sorted := (StronglySorted Rlt).
+
+(* the loop with its two carried while-scans computes, for each merged interval
+   [a,b] inside the output range, (b - a, cell of the centre in x_i, in x_o) *)
+Theorem va_weights_stateless_form (x_i x_o : list R) :
+  sorted x_i -> sorted x_o -> (1 <= length x_i)%nat -> (1 <= length x_o)%nat ->
+  va_weights Rleb x_i x_o
+  = va_pairs Rleb x_i x_o (nth 0 x_o 0) (nth (length x_o - 1) x_o 0) (usort Rleb (x_i ++ x_o)).
+Proof. exact (va_weights_stateless x_i x_o). Qed.
+Print Assumptions va_weights_stateless_form.
+
+(* the index of a centre: the cell that contains it ... *)
+Theorem va_index_inside (x : list R) c k :
+  sorted x -> (k + 1 < length x)%nat -> nth k x 0 <= c -> c < nth (k + 1) x 0 ->
+  cell_of Rleb x c = k.
+Proof. exact (cell_of_inside x c k). Qed.
+Print Assumptions va_index_inside.
+
+(* ... and outside the source grid the nearest (first / last) cell *)
+Theorem va_nearest_outside (x : list R) c :
+  sorted x -> (2 <= length x)%nat ->
+  (c < nth 0 x 0 -> cell_of Rleb x c = 0%nat) /\
+  (nth (length x - 1) x 0 <= c -> cell_of Rleb x c = (length x - 2)%nat).
+Proof. exact (fun Hs Hn => conj (cell_of_left x c Hs Hn) (cell_of_right x c Hs Hn)). Qed.
+Print Assumptions va_nearest_outside.
+
+(* the weights written to output cell j sum to its width *)
+Theorem va_weights_tile (x_i x_o : list R) j :
+  sorted x_i -> sorted x_o -> (1 <= length x_i)%nat -> (j + 1 < length x_o)%nat ->
+  wsum_out Nat.eqb (va_weights Rleb x_i x_o) j = nth (j + 1) x_o 0 - nth j x_o 0.
+Proof. exact (va_weights_tile_out x_i x_o j). Qed.
+Print Assumptions va_weights_tile.
+
+(* same region: the weights read from input cell i sum to its width *)
+Theorem va_weights_tile_input (x_i x_o : list R) i :
+  sorted x_i -> sorted x_o -> (1 <= length x_o)%nat -> (i + 1 < length x_i)%nat ->
+  nth 0 x_i 0 = nth 0 x_o 0 -> nth (length x_i - 1) x_i 0 = nth (length x_o - 1) x_o 0 ->
+  wsum_in Nat.eqb (va_weights Rleb x_i x_o) i = nth (i + 1) x_i 0 - nth i x_i 0.
+Proof. exact (va_weights_tile_in x_i x_o i). Qed.
+Print Assumptions va_weights_tile_input.
+
+(* equal grids: one weight per cell (its width), same index in and out *)
+Theorem va_identity (x : list R) :
+  sorted x -> (2 <= length x)%nat ->
+  va_weights Rleb x x
+  = map (fun k => (nth (k + 1) x 0 - nth k x 0, k, k)) (seq 0 (length x - 1)).
+Proof. exact (va_weights_identity x). Qed.
+Print Assumptions va_identity.
+
+(* 3-D range: every new value lies between the bounds of the old values *)
+Theorem va_convex nx ny nz mx my mz (v : idx3 -> R) a b c m M :
+  sorted nx -> sorted ny -> sorted nz -> sorted mx -> sorted my -> sorted mz ->
+  (1 <= length nx)%nat -> (1 <= length ny)%nat -> (1 <= length nz)%nat ->
+  (a + 1 < length mx)%nat -> (b + 1 < length my)%nat -> (c + 1 < length mz)%nat ->
+  (forall i, m <= v i <= M) ->
+  m <= interp_va Rleb nx ny nz mx my mz (vol3 mx my mz) (fun _ => 0) v (a, b, c) <= M.
+Proof. exact (interp_va_convex nx ny nz mx my mz v a b c m M). Qed.
+Print Assumptions va_convex.
+
+(* 3-D conservation when both grids cover the same region *)
+Theorem va_conserves nx ny nz mx my mz (v : idx3 -> R) :
+  sorted nx -> sorted ny -> sorted nz -> sorted mx -> sorted my -> sorted mz ->
+  (2 <= length nx)%nat -> (2 <= length ny)%nat -> (2 <= length nz)%nat ->
+  (2 <= length mx)%nat -> (2 <= length my)%nat -> (2 <= length mz)%nat ->
+  nth 0 nx 0 = nth 0 mx 0 -> nth (length nx - 1) nx 0 = nth (length mx - 1) mx 0 ->
+  nth 0 ny 0 = nth 0 my 0 -> nth (length ny - 1) ny 0 = nth (length my - 1) my 0 ->
+  nth 0 nz 0 = nth 0 mz 0 -> nth (length nz - 1) nz 0 = nth (length mz - 1) mz 0 ->
+  sumL (fun o => vol3 mx my mz o
+                 * interp_va Rleb nx ny nz mx my mz (vol3 mx my mz) (fun _ => 0) v o)
+       (cells3 mx my mz)
+  = sumL (fun i => vol3 nx ny nz i * v i) (cells3 nx ny nz).
+Proof. exact (interp_va_conserves nx ny nz mx my mz v). Qed.
+Print Assumptions va_conserves.
+
+(* the same in log mode: the integral of log10 is conserved *)
+Theorem va_log_conserves nx ny nz mx my mz (v : idx3 -> R) :
+  sorted nx -> sorted ny -> sorted nz -> sorted mx -> sorted my -> sorted mz ->
+  (2 <= length nx)%nat -> (2 <= length ny)%nat -> (2 <= length nz)%nat ->
+  (2 <= length mx)%nat -> (2 <= length my)%nat -> (2 <= length mz)%nat ->
+  nth 0 nx 0 = nth 0 mx 0 -> nth (length nx - 1) nx 0 = nth (length mx - 1) mx 0 ->
+  nth 0 ny 0 = nth 0 my 0 -> nth (length ny - 1) ny 0 = nth (length my - 1) my 0 ->
+  nth 0 nz 0 = nth 0 mz 0 -> nth (length nz - 1) nz 0 = nth (length mz - 1) mz 0 ->
+  sumL (fun o => vol3 mx my mz o
+                 * log10R (apply_va_log idx3_eqb
+                     (trip3 (va_weights Rleb nx mx) (va_weights Rleb ny my) (va_weights Rleb nz mz))
+                     (vol3 mx my mz) v o))
+       (cells3 mx my mz)
+  = sumL (fun i => vol3 nx ny nz i * log10R (v i)) (cells3 nx ny nz).
+Proof. exact (interp_va_log_conserves nx ny nz mx my mz v). Qed.
+Print Assumptions va_log_conserves.
+
+(* the hypotheses above are satisfiable *)
+Example sorted_grids_exist : sorted [0; 1; 3] /\ sorted [0; 2; 3] /\ sorted [0; 1].
+Proof. exact sorted_example. Qed.
+Print Assumptions sorted_grids_exist.
